@@ -61,7 +61,11 @@ func c20GenRandom(rng *rand.Rand, kinds map[string]*c20Kind, wb bool) *c20Prog {
 		last = pk[rng.Intn(len(pk))]
 		return last
 	}
-	s := c20NewShape()
+	p.RootCtx = "cancel"
+	if rng.Intn(10) < 3 {
+		p.RootCtx = []string{"cause", "deadline", "deadline", "expired"}[rng.Intn(4)]
+	}
+	s := c20NewShape(p.RootCtx)
 	cur := 0
 	emit := func(o c20Op) int {
 		if !s.valid(o) {
@@ -120,8 +124,10 @@ func c20GenRandom(rng *rand.Rand, kinds map[string]*c20Kind, wb bool) *c20Prog {
 			h = live[rng.Intn(len(live))]
 		}
 		switch v := rng.Intn(100); {
-		case v < 58:
+		case v < 55:
 			emit(boOp(h))
+		case v < 58:
+			emit(c20Op{Op: "setctx", H: h, Mode: []string{"cancel", "cause", "deadline", "deadline", "expired"}[rng.Intn(5)]})
 		case v < 68:
 			if len(s.nodes) < 9 {
 				if c := emit(c20Op{Op: "fork", H: h}); c >= 0 {
@@ -159,7 +165,7 @@ func c20GenRandom(rng *rand.Rand, kinds map[string]*c20Kind, wb bool) *c20Prog {
 		case v < 91:
 			emit(c20Op{Op: "resetmax", H: h, M: c20Budgets[rng.Intn(len(c20Budgets))]})
 		case v < 94:
-			emit(c20Op{Op: "cancel", H: h})
+			emit(c20Op{Op: "cancel", H: h, Up: []int{0, 0, 0, 1, 1, 2}[rng.Intn(6)]})
 		case v < 96:
 			if p.Killable {
 				emit(c20Op{Op: "kill", H: 0})
@@ -187,7 +193,14 @@ func c20GenRandom(rng *rand.Rand, kinds map[string]*c20Kind, wb bool) *c20Prog {
 //
 // (every shorter program is a prefix of one of them, and every prefix is judged
 // step by step).
-func c20Enumerate(length int, ka, kb string, proto c20Prog, f func(p *c20Prog)) {
+//
+// The context alphabet ("afcuxXde", used for the second enumeration):
+//
+//	x,X  end the current handle's own context / the root's context
+//	d,e  SetCtx on the current handle: a context that the driver ends with
+//	     Err()==DeadlineExceeded (then x ends it) / a real deadline context
+//	     that has already expired
+func c20Enumerate(length int, alphabet, ka, kb string, proto c20Prog, f func(p *c20Prog)) {
 	type st struct {
 		s    *c20Shape
 		cur  int
@@ -202,7 +215,7 @@ func c20Enumerate(length int, ka, kb string, proto c20Prog, f func(p *c20Prog)) 
 			f(&p)
 			return
 		}
-		for _, l := range "abfcmMur" {
+		for _, l := range alphabet {
 			var o c20Op
 			cur := x.cur
 			switch l {
@@ -233,6 +246,14 @@ func c20Enumerate(length int, ka, kb string, proto c20Prog, f func(p *c20Prog)) 
 				continue
 			case 'r':
 				o = c20Op{Op: "reset", H: cur}
+			case 'x':
+				o = c20Op{Op: "cancel", H: cur}
+			case 'X':
+				o = c20Op{Op: "cancel", H: cur, Up: 99}
+			case 'd':
+				o = c20Op{Op: "setctx", H: cur, Mode: "deadline"}
+			case 'e':
+				o = c20Op{Op: "setctx", H: cur, Mode: "expired"}
 			}
 			if !x.s.valid(o) {
 				continue
@@ -250,5 +271,5 @@ func c20Enumerate(length int, ka, kb string, proto c20Prog, f func(p *c20Prog)) 
 			rec(nx, depth+1)
 		}
 	}
-	rec(st{s: c20NewShape(), cur: 0, from: []int{-1}}, 0)
+	rec(st{s: c20NewShape(proto.RootCtx), cur: 0, from: []int{-1}}, 0)
 }
